@@ -196,10 +196,10 @@ def t3(ctx):
     return obs
 
 
-@rule("C07", "T4", floor=1, kind="S", desc="the token is the collection tag: get_sync_token returns store.get_ctag() (see C08/G1)")
+@rule("C07", "T4", floor=1, kind="S", desc="the token is the collection tag: get_sync_token returns store.get_ctag(), which is the id of the tree the listing comes from (C08/G1, G2)")
 def t4(ctx):
-    from .c08 import single_source_obligations
-    return [o for o in single_source_obligations(ctx) if "get_sync_token" in o.construct or "SyncToken" in o.construct]
+    from .c08 import single_source_obligations, g2
+    return [o for o in single_source_obligations(ctx) if "get_sync_token" in o.construct or "SyncToken" in o.construct] + list(g2(ctx))
 
 
 @rule("C07", "T5", floor=1, kind="S",
@@ -233,3 +233,23 @@ def t5(ctx):
                           "`%s` is used at line %d with a value that can come from the previous member of the listing: a newly created member is "
                           "compared with another member's old etag and is dropped from the report when they happen to be equal" % (v, cu[0].lineno if cu else 0)))
     return obs
+
+
+@rule("C07", "T6", floor=1, kind="S",
+      desc="every change the store reports is passed on: iter_differences_since yields for each item of "
+           "store.iter_changes (no name-based filter that listings do not apply)")
+def t6(ctx):
+    from .common import loop_body_nodes
+    fi = ctx.own_method(SBC, "iter_differences_since")
+    cfg = ctx.cfg(fi)
+    loops = [n for n in cfg.nodes if n.kind == "for" and isinstance(n.ast.iter, ast.Call) and (dotted(n.ast.iter.func) or "").endswith("store.iter_changes")]
+    if not loops:
+        raise AnalysisError("iter_differences_since: loop over store.iter_changes not found")
+    lp = loops[0]
+    ys = [n for n in cfg.stmt_nodes() if n.kind == "stmt" and isinstance(n.ast, ast.Expr) and isinstance(n.ast.value, ast.Yield)]
+    starts = [m for m, l in lp.succ if l == "loop"]
+    r = cfg.reachable(starts, block_nodes=ys, follow_exc=False)
+    skipping = lp.id in r
+    return [ctx.ob(bool(ys) and not skipping, fi.qualname, where(fi, lp), "every reported change is yielded",
+                   "each iteration reaches the yield", "an iteration of the loop over store.iter_changes can go on to the next item without yielding: some members are never "
+                   "reported as created/changed/removed by sync-collection although PROPFIND lists them")]
